@@ -264,7 +264,13 @@ def run_complex(spec, res):
     text = pdbfmt.to_text(items)
     ff = rng.choice(["AMBER", "PARSE", "CHARMM"]) if variant != "ffresname" else rng.choice(["CHARMM", "CHARMM", "AMBER"])
     opts = [f"--ff={ff}", "--ligand={dir}/lig.mol2"]
-    r = pipeline.run(text, opts, extra_files={"lig.mol2": lig_text}, workname="c16")
+    from ..mon import pkastub
+    if variant in ("plain", "ions", "nocollide", "waterH") and rng.random() < 0.4:
+        # the pKa route strips and rebuilds hydrogens: the ligand's own hydrogens must survive it
+        opts += pkastub.titration_opts(rng)
+        res.count("complex_pka_route_runs")
+    with pkastub.for_opts(opts, truth, spec["seed"]):
+        r = pipeline.run(text, opts, extra_files={"lig.mol2": lig_text}, workname="c16")
     lig_names = set(lp["names"])
     water_collision = bool(lig_names & {"O", "H1", "H2"})
     feature = "ligand-residue-name-known-to-force-field" if variant == "ffresname" else \
@@ -294,7 +300,8 @@ def run_complex(spec, res):
                         f"r={a['r']}, ligand parameters are {qr[a['name']]}", **wit)
             break
     # differential: the same complex without --ligand - every non-ligand atom must be untouched by the ligand
-    r0 = pipeline.run(text, [f"--ff={ff}"], workname="c16")
+    with pkastub.for_opts(opts, truth, spec["seed"]):
+        r0 = pipeline.run(text, [o for o in opts if not o.startswith("--ligand")], workname="c16")
     if r0.ok:
         res.count("complex_differentials")
         base = {(a["resn"], a["resi"], a["name"], a["chain"]): (a["qs"], a["rs"]) for a in pipeline.parse_pqr(r0.pqr_text)}
